@@ -10,6 +10,7 @@ import (
 	"path/filepath"
 	"sort"
 	"strings"
+	"sync/atomic"
 	"time"
 
 	"github.com/hashicorp/go-slug/sourceaddrs"
@@ -56,8 +57,23 @@ func (f *prFetcher) FetchSourcePackage(ctx context.Context, t string, u *url.URL
 		nodes = append(nodes, arena.PN{P: append([]string{"A", "T", "w"}, pn.P...), N: pn.N})
 	}
 	f.err = f.g.Setup(f.root, nodes)
+	// a fetcher spells absolute links into the package with the directory name it was handed; when the target
+	// directory was given by way of a symlink that is not the resolved spelling the arena was built with
+	if resolved, err := filepath.EvalSymlinks(dir); err == nil && resolved != dir {
+		filepath.Walk(resolved, func(p string, fi os.FileInfo, err error) error {
+			if err == nil && fi.Mode()&os.ModeSymlink != 0 {
+				if t, rerr := os.Readlink(p); rerr == nil && strings.HasPrefix(t, resolved+"/") {
+					os.Remove(p)
+					os.Symlink(dir+strings.TrimPrefix(t, resolved), p)
+				}
+			}
+			return nil
+		})
+	}
 	return sourcebundle.FetchSourcePackageResponse{}, nil
 }
+
+var prepSeq int64
 
 type noFinder struct{}
 
@@ -104,6 +120,15 @@ func runPrep(base string, c *prCase) (obs *prObs, infra string) {
 	before := g.Snapshot(root)
 	obs = &prObs{Tree: c.Tree, Rules: c.Rules, Lines: c.Lines, Outside: []string{}}
 	target := g.Abs(root, []string{"A", "T"})
+	if atomic.AddInt64(&prepSeq, 1)%2 == 0 {
+		// every other case names the target directory by way of a symbolic link (outside the arena)
+		if ld, lerr := os.MkdirTemp(base, "lnk-"); lerr == nil {
+			defer os.RemoveAll(ld)
+			if os.Symlink(root, filepath.Join(ld, "r")) == nil {
+				target = g.Abs(filepath.Join(ld, "r"), []string{"A", "T"})
+			}
+		}
+	}
 	ft := &prFetcher{g: g, root: root, sub: sub}
 	done := make(chan struct{})
 	go func() {
